@@ -111,12 +111,23 @@ def forbidden_tokens() -> list[str]:
     return hits
 
 
+# further theorem files of a property (built and audited with it when present)
+EXTRA_MODULES = {"C03": ["C03Wrap"]}
+
+
+def modules(prop: str) -> list[str]:
+    return [prop] + [m for m in EXTRA_MODULES.get(prop, []) if (LEAN / "DelbModel" / "Props" / f"{m}.lean").exists()]
+
+
 def theorem_names(prop: str) -> list[str]:
-    f = LEAN / "DelbModel" / "Props" / f"{prop}.lean"
-    src = strip_lean_comments(f.read_text())
-    ns = re.search(r"^namespace\s+(\S+)", src, re.M)
-    prefix = ns.group(1) + "." if ns else ""
-    return [prefix + m for m in re.findall(r"^theorem\s+([^\s:({\[]+)", src, re.M)]
+    names = []
+    for mod in modules(prop):
+        f = LEAN / "DelbModel" / "Props" / f"{mod}.lean"
+        src = strip_lean_comments(f.read_text())
+        ns = re.search(r"^namespace\s+(\S+)", src, re.M)
+        prefix = ns.group(1) + "." if ns else ""
+        names += [prefix + m for m in re.findall(r"^theorem\s+([^\s:({\[]+)", src, re.M)]
+    return names
 
 
 def lean_stage(prop: str, tier: str) -> dict:
@@ -146,9 +157,8 @@ def lean_stage(prop: str, tier: str) -> dict:
         if rc != 0:
             rep["ok"] = False
             rep["failures"].append("lake build driver failed:\n" + out[-3000:])
-        rc, out = sh(
-            ["lake", "build", f"DelbModel.Props.{prop}"], cwd=LEAN, timeout=3000
-        )
+        mods = [f"DelbModel.Props.{m}" for m in modules(prop)]
+        rc, out = sh(["lake", "build"] + mods, cwd=LEAN, timeout=3000)
         names = theorem_names(prop)
         rep["obligations"] = names
         if rc != 0:
@@ -162,7 +172,7 @@ def lean_stage(prop: str, tier: str) -> dict:
             return rep
         audit = LEAN / ".lake" / f"audit_{prop}.lean"
         audit.write_text(
-            f"import DelbModel.Props.{prop}\n"
+            "".join(f"import {m}\n" for m in mods)
             + "".join(f"#print axioms {n}\n" for n in names)
         )
         rc, out = sh(["lake", "env", "lean", str(audit)], cwd=LEAN, timeout=1200)
@@ -196,7 +206,7 @@ def lean_stage(prop: str, tier: str) -> dict:
             rep["failures"].append("forbidden tokens in lean sources: " + "; ".join(hits[:10]))
         if tier == "thorough" and rep["ok"]:
             rc, out = sh(
-                ["lake", "env", "leanchecker", f"DelbModel.Props.{prop}"],
+                ["lake", "env", "leanchecker"] + mods,
                 cwd=LEAN,
                 timeout=3000,
             )
